@@ -91,6 +91,10 @@ var vC04Decls = []string{
 	`(func trundle [a:int64 b:string] [n:int64 err:error] (return (+ a 78) nil)) (trundle a:9001 b:"hi")`,
 	`(func driveIt [a:int64 b:string] [n:int64 err:error])`,
 	`(func pick [a:int64] [n:int64] (cond (< a 5) (return 1) (return 2))) (pick a:9001)`,
+	`(func stub [a:int64] [n:int64]) (stub 9001) (stub a:9001) (stub 1)`,
+	`(func two [a:int64 b:string] [n:int64 err:error]) (two 9001 "x") (two b:"y" a:9001)`,
+	`(func none [] []) (none) (none)`,
+	`(func addTwo [a:int64 b:int64] [n:int64] (return (+ a b))) (def r (addTwo b:40 a:9001)) (let [q (addTwo 1 2)] q) (addTwo a:1 b:2)`,
 	// method, interface
 	`(struct Kart [(field Id: int64 e:0) (field Name: string e:1)]) (method [(p *Kart)] DriveAway [][s:string] (return "road")) (def c (Kart Id: 9001)) (+ 0 c.Id)`,
 	`(interface Driveable [(func driveIt [a:int64 b:string] [n:int64 err:error])])`,
